@@ -16,7 +16,13 @@ history behaves like a canonical registry built from the same contents; (O3) val
 that defines the property accepts; (O4) defaultProfiles changes `matching`/reported profile only; (O5) removing
 an unknown profile raises NoSuchProfileException and changes nothing; (O6) remove-all then re-adding the
 built-ins in the original order restores a fresh `Profiles()`; (O7) any mutator that raises (undefined macro,
-cyclic macro, unknown profile) leaves the registry unchanged.
+cyclic macro, unknown profile) leaves the registry unchanged; (O8) for a macro set without a cycle
+`_expand_macros` ends within the rank bound, leaves no placeholder, and returns a text when every macro is defined;
+(O9) no built-in macro lies on a cycle (else `addProfile` with a definition that names it does not return).
+
+wave 3 streams: termination (`phs`, `acyc`, `passes` against re.findall, an independent cycle search and the pass
+count of the real loop) and `spec` (the model's `specReg` on independently tracked contents against the
+implementation's observables after a history).
 """
 import copy
 import json
@@ -454,6 +460,13 @@ class C14(Check):
         'addProfiles list of __init__), cross-checked by comparing the initial registry of model and implementation',
         "regex acceptance is a parameter of the model; in the correspondence it is CPython's `re` applied to the "
         "model's own expanded pattern strings",
+        'lean/CssVerif/Model/MacroRank.lean (placeholder names, ranks, cycle check, pass count) tied by the termination '
+        'stream of this run: re.findall, an independent depth-first cycle search, and the number of re.sub passes of '
+        'the real loop counted through a stand-in for the module `re` inside cssutils.profiles; '
+        'lean/CssVerif/Model/ProfilesSpec.lean (specReg) tied by comparing it, on contents tracked independently, '
+        'with what the implementation shows after a history',
+        'the built-in tables are generated as code points and the builtin_* theorems are evaluated by the Lean kernel '
+        'on them at build time (a changed table re-checks them)',
     )
     assumptions = (
         'the registry is given a log that never raises (= log.raiseExceptions off, the mode used while parsing): a '
@@ -468,7 +481,10 @@ class C14(Check):
             'removed, remove-all); corpus = the histories of the four repaired findings and hand-made ones, run '
             'first. non-trivial = distinct (history prefix) whose last operation changed an observable or raised, '
             'and distinct oracle cases; verdict battery: %d (name, value) pairs x validate/validateWithProfile '
-            'after every operation, plus validateWithProfile/propertiesByProfile with explicit profile arguments'
+            'after every operation, plus validateWithProfile/propertiesByProfile with explicit profile arguments; '
+            'termination stream: (macro set, value) pairs over 8 macro names of kinds ranked / chain / free / ring '
+            'with odd literal pieces and undefined names, and the built-in macro environment with the built-in '
+            'patterns; specReg stream: the first 60 (thorough 500) histories'
             % len(BATTERY))
 
     # ------------------------------------------------------------------------------------------
